@@ -80,6 +80,7 @@ pub(crate) fn parse_offset(chars: &mut Peekable<Chars<'_>>) -> TemporalResult<Op
     let minutes = match digit_peek {
         Some(true) => parse_digit_pair(chars)?,
         Some(false) => return Err(non_ascii_digit()),
+        None if sep => return Err(abrupt_end()),
         None => 0,
     };
 
